@@ -310,6 +310,11 @@ theorem simple_table_roundtrip (isTsv : Bool) (field : String) (data : List (Int
       · exact hcsv h)
   unfold readTsvSimple writeTsvSimple
   simp only [hrec]
+  -- written rows are never empty: the blank-line filter keeps them all
+  rw [List.filter_eq_self.mpr (by
+    intro r hr
+    obtain ⟨p, _, rfl⟩ := List.mem_map.mp hr
+    rfl)]
   rw [List.mapM_map]
   rw [mapM_all_some _ (fun p => (p.1, obsS p.2))]
   · simp [String.ofList_toList]
